@@ -352,6 +352,25 @@ def make_externals():
             res.append((s2, r))
         return res
     X["H5Aread"] = h5aread
+    # H5Sget_simple_extent_dims(space, dims, maxdims): the extent of that dataspace object. The ghost model tracks the extent of the
+    # DATASET (through H5Dcreate2 / H5Dset_extent), not of dataspace handles, which HDF5 does not refresh when the dataset grows:
+    # the values that arrive are unconstrained.
+    def h5_extent_dims(interp, st, args, n):
+        st = st.copy()
+        r = fresh_int("H5Sget_simple_extent_dims_ret")
+        for k in (1, 2):
+            p = args[k] if len(args) > k else None
+            if isinstance(p, Ptr) and p.obj is not None:
+                for i in range(2):
+                    v = fresh_int("dataspace_extent%d" % i)
+                    st.assume(z3.And(v >= 0, v < (1 << 62)))
+                    try:
+                        interp.store(st, (p.obj, tuple(p.path) + (i,) if not is_conc(p.idx) or p.idx == 0 else tuple(p.path) + (p.idx + i,)), v, n["_line"])
+                    except Exception:
+                        raise Undecided("H5Sget_simple_extent_dims: cannot model the output array")
+        st.trace.append(Effect("H5Sget_simple_extent_dims", [args[0]], r, n["_line"], interp.func))
+        return [(st, r)]
+    X["H5Sget_simple_extent_dims"] = h5_extent_dims
     for nm in H5_ID:
         h5(nm, "id")
     for nm in H5_QUERY:
